@@ -88,10 +88,18 @@ def h_busy(ctx, M, k_put):
     closure = bool(ctx.choice("closure", 2))
     a = hsrc.SrcScenario(ctx, w, mode=mode, closure=closure, M=M)
     b = hsrc.SrcScenario(ctx, w, mode=mode, closure=closure, M=M, S=a.S)
+    # the premature request may name the same remote entity, another one with a different
+    # configuration, an unknown one, or a missing file
+    other = rigs.remote_cfg(b.ids.other_entity, seg_len=5, max_packet_len=64, closure=not closure, crc=True,
+                            mode=UNACK if mode == ACK else ACK, cktype=ChecksumType.CRC_32C)
+    b.rig.table.add_config(other)
+    variant = ctx.pick("premature", ["same", "other_entity", "unknown_entity", "missing_file"])
     a.put(); b.put()
     for i in range(M + 4):
         if i == k_put:
-            o = b.rig.put(src="/src/file.bin", dst="/dst/other.bin")
+            o = b.rig.put(src="/src/none.bin" if variant == "missing_file" else "/src/file.bin", dst="/dst/other.bin",
+                          dest_id={"other_entity": b.ids.other_entity,
+                                   "unknown_entity": UnsignedByteField(77, b.ids.id_w)}.get(variant))
             was_busy = not b.rig.idle
             if not was_busy:
                 ctx.end("infeasible")
